@@ -1376,3 +1376,32 @@ prop(dict(
 
 for _id in ("C02", "C03", "C08", "C09", "C10", "C14"):
     PROPS[_id]["rule"] += CORPUS_RULE
+
+# additions of the later strengthening rounds (DESIGN 9.6), appended to the generation rules reported in the evidence
+RULE_ADD = {
+    "C02": "; receivers may also start as application-built values with every field set",
+    "C04": "; every case is also marshalled in place into the buffer the packet was decoded from (unchanged, other fixed fields, first extension deleted)",
+    "C05": "; start states include a receiver that decoded an extension packet and then a plain one; long histories of 120 operations",
+    "C06": "; long runs of 300-400 calls and calls emitting hundreds of packets",
+    "C07": "; sequencers far along (roll-over count preset around 2^16, 2^32, 2^64 through a verification-only constructor, relative counts) and the sequencer observed "
+           "hook-less through a packetizer (roll-over count against the wraps of the observed numbers)",
+    "C08": "; the input is a window of a larger caller buffer whose following bytes must stay untouched; the caller appends to / writes over returned fragments; long runs of 250 calls, "
+           "inputs cut into 500+ fragments, parameter sets whose sizes sum beyond 2^16, the same access unit again with another MTU",
+    "C09": "; receivers may start as application-built values with every field set (VP8, VP9, Opus); long runs of 300 payloads",
+    "C10": "; all access units of a history lie in one stream buffer (which must stay untouched); per-call MTU with repeated parameter sets; re-split parameter-set generations; "
+           "units cut into 800 fragments, 300 calls on one payloader, parameter sets whose sizes sum beyond 2^16",
+    "C11": "; every descriptor is also decoded into a VP8Packet that has decoded a descriptor with every field set; 400-frame runs and frames cut into 600+ packets",
+    "C12": "; every descriptor is also decoded into a VP9Packet that has decoded descriptors with every optional part; 400-frame runs and frames cut into 300+ packets",
+    "C13": "; sizes around one and two packet capacities with every header / length-field offset; 300 elements in one packet; OBU size fields written as padded LEB128 numbers up to "
+           "8 bytes; an OBU beyond 2^21 bytes; an OBU cut into 600+ packets",
+    "C14": "; every payload is also decoded into an H265Packet that has decoded payloads of every kind; all access units of a history lie in one stream buffer; 300 units in one "
+           "aggregation packet, units cut into 800+ fragments, 300 calls on one payloader, unit pairs whose sizes sum beyond 2^16",
+    "C15": "; abandoned units of 4.3 MB and 17 MB; bytes retained from an abandoned unit ending just below 2^20 .. 2^24 (thorough: .. 2^26)",
+    "C16": "; the Opus partition flags are probed for every payload incl. nil / empty ones on a used and a fresh packet",
+    "C17": "; receivers may be application-built or constructor-built values; the caller writes over what Marshal returned and marshals again; a canary of fixed values through "
+           "every constructor and codec is re-evaluated after each event",
+    "C18": "; offsets are also decoded into a constructor-built zero-offset receiver, after which a newly constructed zero-offset value must still report zero",
+    "C19": "; the reused receiver has decoded a sibling of the judged value (same layout, resolution toggled or other rates)",
+}
+for _id, _t in RULE_ADD.items():
+    PROPS[_id]["rule"] += _t
